@@ -41,6 +41,11 @@ pub enum Corruption {
     ForeignLine { line: usize, prefix: usize, len: usize, bytes_per_char: u8 },
     /// the same kind of text spliced into the middle of the file at a byte offset
     ForeignText { off: usize, len: usize, bytes_per_char: u8 },
+    /// a gate line as other Bristol dialects write them (MAND with several outputs, EQ, EQW, NOT,
+    /// OR, NAND, arities 0..6 in and 0..4 out, token count consistent with the arities or off by
+    /// one, wires in range / at the boundary / absurd), inserted before gate line `line` or put
+    /// in its place; the header's gate count follows an insertion
+    DialectLine { line: usize, seed: u64, replace: bool },
 }
 
 fn foreign(len: usize, bytes_per_char: u8) -> String {
@@ -178,6 +183,77 @@ pub fn apply_corruption(img: &mut Vec<u8>, c: &Corruption) -> bool {
             let at = (*off).min(img.len());
             img.splice(at..at, [0xff, 0xfe, 0x80]);
         }
+        Corruption::DialectLine { line, seed, replace } => {
+            // a MOSTLY valid line: inputs are primary inputs of the circuit (always assigned), the
+            // first output is the wire the replaced line assigned (or a free-looking one); every
+            // position has a small chance of carrying a boundary value instead
+            let mut p = Prng::new(*seed);
+            let text = String::from_utf8_lossy(img).to_string();
+            let mut lines: Vec<String> = text.lines().map(|l| l.to_string()).collect();
+            let nums = |l: Option<&String>| -> Vec<u64> { l.map(|l| l.split_ascii_whitespace().filter_map(|t| t.parse().ok()).collect()).unwrap_or_default() };
+            let header = nums(lines.first());
+            let wires = header.get(1).copied().unwrap_or(8);
+            let total_inputs: u64 = nums(lines.get(1)).iter().skip(1).fold(0u64, |a, b| a.saturating_add(*b)).clamp(1, 1 << 20);
+            let op = *p.pick(&["MAND", "MAND", "MAND", "EQ", "EQW", "NOT", "OR", "NAND", "XOR", "AND", "INV"]);
+            let (n_in, n_out) = if op == "MAND" {
+                let n = p.range(1, 3);
+                (2 * n, n)
+            } else {
+                (p.range(1, 3), if p.chance(4, 5) { 1 } else { p.below(3) })
+            };
+            let boundary = |p: &mut Prng| -> String {
+                match p.below(6) {
+                    0 => wires.to_string(),
+                    1 => wires.saturating_sub(1).to_string(),
+                    2 => "4294967295".to_string(),
+                    3 => "18446744073709551615".to_string(),
+                    4 => wires.saturating_add(p.below(1000)).to_string(),
+                    _ => p.below(wires.max(1)).to_string(),
+                }
+            };
+            // gate lines start after the three header lines and the empty line
+            let first_gate = lines.iter().position(|l| l.trim().is_empty()).map(|i| i + 1).unwrap_or(lines.len());
+            let at = (first_gate + *line).min(lines.len());
+            let old_out: Option<String> = lines.get(at).and_then(|l| {
+                let t: Vec<&str> = l.split_ascii_whitespace().collect();
+                if t.len() >= 3 { Some(t[t.len() - 2].to_string()) } else { None }
+            });
+            let mut toks = vec![n_in.to_string(), n_out.to_string()];
+            for _ in 0..n_in {
+                toks.push(if p.chance(1, 8) { boundary(&mut p) } else { p.below(total_inputs).to_string() });
+            }
+            for k in 0..n_out {
+                toks.push(match (&old_out, k) {
+                    (Some(o), 0) if p.chance(7, 8) => o.clone(),
+                    _ => {
+                        if p.chance(1, 2) {
+                            boundary(&mut p)
+                        } else {
+                            p.below(wires.max(1)).to_string()
+                        }
+                    }
+                });
+            }
+            if p.chance(1, 12) {
+                toks.push(boundary(&mut p));
+            } else if p.chance(1, 12) {
+                toks.pop();
+            }
+            toks.push(op.to_string());
+            if *replace && at < lines.len() {
+                lines[at] = toks.join(" ");
+            } else {
+                lines.insert(at, toks.join(" "));
+                if let Some(first) = lines.first_mut() {
+                    let mut h: Vec<String> = first.split_ascii_whitespace().map(|t| t.to_string()).collect();
+                    if let Some(g) = h.first().and_then(|t| t.parse::<u64>().ok()) {
+                        h[0] = g.saturating_add(1).to_string();
+                        *first = h.join(" ");
+                    }
+                }
+            }
+            *img = (lines.join("\n") + "\n").into_bytes();
+        }
     }
     *img != before
 }
@@ -263,6 +339,11 @@ pub struct World {
     /// scratch file (no faults there: the simulated disk belongs to this build)
     #[serde(default)]
     pub plain_build: bool,
+    /// before the export under test, ANOTHER caller in the same process exports a hand-built circuit
+    /// with fewer than 161 outputs to the same path (a panic inside the exporter on this tree, caught
+    /// by that caller) and imports a path that does not exist (an error): part of the process's history
+    #[serde(default)]
+    pub misuse_before: bool,
     /// history of the *process*: worlds the same thread ran through earlier (a long-lived
     /// exporter/importer). Their own verdicts are not judged here.
     #[serde(default)]
@@ -615,6 +696,18 @@ fn run_world_inner(w: &World) -> Obs {
         expect_output_is_input = subj.expect_output_is_input;
     }
 
+    if w.misuse_before {
+        let tiny = Circuit { input_gates: vec![1], gates: vec![], output_gates: vec![0] };
+        let p2 = path.clone();
+        let a = guarded(move || tiny.format_as_bristol(&p2).is_ok()).is_err();
+        let missing = seams::sim_path("no_such_file.bristol.txt");
+        let b = guarded(move || Circuit::bristol_to_garble(&missing).is_ok()).is_err();
+        *obs.counters.entry("other_callers_misuse_before_export".into()).or_insert(0) += 1 + (a as u64) + (b as u64);
+        seams::disk_remove(pstr);
+        if w.pipe {
+            seams::disk_make_pipe(pstr);
+        }
+    }
     // ---------------- the path's history: earlier exports / old contents at the same path
     for pr in &w.prior {
         match pr {
@@ -1352,7 +1445,13 @@ fn draw_corruptions(p: &mut Prng, len: usize, ntokens: usize, nlines: usize, str
                 len: p.range(1, 200) as usize,
                 bytes_per_char: p.range(1, 4) as u8,
             },
-            17 => Corruption::ForeignText { off: p.usize_below(len1), len: p.range(1, 120) as usize, bytes_per_char: p.range(2, 4) as u8 },
+            17 => {
+                if p.chance(1, 2) {
+                    Corruption::ForeignText { off: p.usize_below(len1), len: p.range(1, 120) as usize, bytes_per_char: p.range(2, 4) as u8 }
+                } else {
+                    Corruption::DialectLine { line: p.usize_below(nlines.max(1)), seed: p.next_u64(), replace: p.chance(1, 2) }
+                }
+            }
             _ => {
                 if p.chance(1, 2) {
                     Corruption::Invalid { off: p.usize_below(len1) }
@@ -1417,7 +1516,7 @@ static NSYNC_OF_LAST_REFERENCE: std::sync::atomic::AtomicU64 = std::sync::atomic
 
 fn reference_export(prog: &ProgSpec, dedup: bool, keys: Keys) -> Option<(Vec<u8>, u64, u64)> {
     // fault-free export to learn the size of the search space (write count, bytes)
-    let w = World { program: Some(prog.clone()), dedup, keys, export_plan: Plan::default(), corruptions: vec![], import_plan: Plan::default(), via_lib: false, s5: None, raw_text: None, prior: vec![], earlier: vec![], file_name: None, stdio_broken: None, outside_replace: None, outside_keeps_mtime: false, env_flip: vec![], pipe: false, plain_build: false };
+    let w = World { program: Some(prog.clone()), dedup, keys, export_plan: Plan::default(), corruptions: vec![], import_plan: Plan::default(), via_lib: false, s5: None, raw_text: None, prior: vec![], earlier: vec![], file_name: None, stdio_broken: None, outside_replace: None, outside_keeps_mtime: false, env_flip: vec![], pipe: false, plain_build: false, misuse_before: false };
     seams::reset_world();
     let w2 = w.clone();
     run_party(keys, move || {
@@ -1463,6 +1562,7 @@ pub fn make_world(plan: &CasePlan, seed: u64, idx: u64) -> (World, &'static str,
         env_flip: vec![],
         pipe: false,
         plain_build: false,
+        misuse_before: false,
     };
     // the file's name and the state of the process's stdout/stderr are dimensions of every family
     if family != "s5" && p.chance(1, 3) {
@@ -1598,6 +1698,9 @@ pub fn make_world(plan: &CasePlan, seed: u64, idx: u64) -> (World, &'static str,
             }
             w.program = chosen;
         }
+    }
+    if family != "sweep" && family != "s5" && w.program.is_some() && p.chance(1, 8) {
+        w.misuse_before = true;
     }
     // the kind of file behind the path is a dimension of every family whose world has no stored
     // bytes to begin with (old data in a FIFO is read before the new data, by any importer)
@@ -1910,6 +2013,13 @@ fn run_sweep(base: &World, acc: &mut Acc) {
         }
     };
     go(base.clone(), acc);
+    // another caller misused the library in this process before (a panic inside the exporter, caught)
+    {
+        let mut w = base.clone();
+        w.misuse_before = true;
+        go(w.clone(), acc);
+        go(base.clone(), acc);
+    }
     // the path is a FIFO: fault-free, through the library wrappers, under transparent faults
     for variant in 0..4 {
         let mut w = base.clone();
@@ -1959,6 +2069,14 @@ fn run_sweep(base: &World, acc: &mut Acc) {
             go(w2.clone(), acc);
             w2.corruptions = vec![Corruption::DupLine { line }];
             go(w2, acc);
+        }
+        // gate lines of other Bristol dialects, inserted before / put in place of the first gate lines
+        for line in 0..4usize {
+            for seed in 0..24u64 {
+                let mut w2 = w.clone();
+                w2.corruptions = vec![Corruption::DialectLine { line, seed: seed * 7919 + line as u64, replace: seed % 2 == 1 }];
+                go(w2, acc);
+            }
         }
     }
     // the path's history: old contents / an earlier, larger export at the same path
